@@ -11,7 +11,7 @@ var Props = []*h.Prop{
 		Rule:        "one evaluation = one generated pair of databases (1-3 interfaces x 1-3 days, each day missing / clearly partial / clearly complete on either side, colliding block stamps with different payloads) with drawn options (overwrite, interface subset, tolerance), executed as dry run, merge and repeated merge; non-trivial = at least one day present in the source; distinct = distinct event-log hash",
 		Real:        realMerge,
 		Stub:        stubMerge,
-		Assumptions: []string{"days are generated clearly complete (a block every 5 minutes) or clearly partial (<= 8 blocks: none within two hours of either end of the day, or covered from midnight but ending at least four hours early, or reaching midnight but starting at least two hours late, unevenly spaced), so the oracle does not mirror the tolerance arithmetic of the completeness heuristic", "fault-free configuration (kills are C25)"}},
+		Assumptions: []string{"days are generated clearly complete (a block every 5 minutes, or blocks five minutes apart at both ends of the day with holes of hours in between) or clearly partial (<= 8 blocks: none within two hours of either end of the day, or covered from midnight but ending at least four hours early, or reaching midnight but starting at least two hours late, unevenly spaced), so the oracle does not mirror the tolerance arithmetic of the completeness heuristic", "fault-free configuration (kills are C25)"}},
 	{ID: "C25", Run: c25, Bubble: true,
 		Rule:        "one evaluation = one generated database pair whose merge is killed at every structural mutating operation (mkdir, create, rename, remove, chmod; capped at 120, thorough 600, renames and removes always kept) and at sampled data writes (half of them torn); after each distinct post-crash disk state: interface listing, any-query, per-day old-or-merged check through the real query engine, and a later uninterrupted merge; non-trivial = the merge performs at least one mutating operation; distinct = distinct event-log hash",
 		Real:        realMerge,
